@@ -437,9 +437,14 @@ class IMAPSearch:
                 if elt == msg_number:
                     return True
             elif isinstance(elt, tuple):
-                if isinstance(elt[1], str) and elt[1] == "*":
-                    elt = (elt[0], self.ctx.seq_max)
-                if msg_number >= elt[0] and msg_number <= elt[1]:
+                # Either end of the range may be '*' and the range may be
+                # written in either order.
+                #
+                start = self.ctx.seq_max if elt[0] == "*" else elt[0]
+                end = self.ctx.seq_max if elt[1] == "*" else elt[1]
+                if start > end:
+                    start, end = end, start
+                if msg_number >= start and msg_number <= end:
                     return True
         return False
 
@@ -563,8 +568,13 @@ class IMAPSearch:
                 if elt == uid:
                     return True
             elif isinstance(elt, tuple):
-                if isinstance(elt[1], str) and elt[1] == "*":
-                    elt = (elt[0], self.ctx.uid_max)
-                if uid >= elt[0] and uid <= elt[1]:
+                # Either end of the range may be '*' and the range may be
+                # written in either order.
+                #
+                start = self.ctx.uid_max if elt[0] == "*" else elt[0]
+                end = self.ctx.uid_max if elt[1] == "*" else elt[1]
+                if start > end:
+                    start, end = end, start
+                if uid >= start and uid <= end:
                     return True
         return False
